@@ -46,8 +46,8 @@ PROPS["C03"] = {
     "assumptions": [],
 }
 PROPS["C04"] = {
-    "rules": [r_transform.rule_CANCEL, r_sync.rule_T1_sync, r_sync.rule_S3, r_sync.rule_S1, r_sync.rule_S9, r_taskdb.rule_R6, r_servers.rule_K7],
-    "explanation": "R6: the replica-level sync rebuilds the working set after every successful TaskDb sync, also one that exchanged nothing (the repeat of a sync interrupted between its two transactions); K7: the object-store server keeps the uploaded version when the outcome of the swap is unknown (`effect then lost reply` on the one request that makes a version the head), otherwise the repeated sync is out of sync for good; TR/CANCEL: identical operations cancel to (None, None).",
+    "rules": [r_transform.rule_CANCEL, r_sync.rule_T1_sync, r_sync.rule_S3, r_sync.rule_S1, r_sync.rule_S9, r_taskdb.rule_R6, r_servers.rule_K7, r_storage.rule_D],
+    "explanation": "D2-D4: on SQLite `dropped on error` is a real rollback - one rusqlite transaction per StorageTxn, committed only by commit, drop behaviour untouched, and every proxied call returns the actor's verdict; R6: the replica-level sync rebuilds the working set after every successful TaskDb sync, also one that exchanged nothing (the repeat of a sync interrupted between its two transactions); K7: the object-store server keeps the uploaded version when the outcome of the swap is unknown (`effect then lost reply` on the one request that makes a version the head), otherwise the repeated sync is out of sync for good; TR/CANCEL: identical operations cancel to (None, None).",
     "not_decided": "per-crash-point behaviour",
     "assumptions": [],
 }
@@ -64,8 +64,8 @@ PROPS["C12"] = {
     "assumptions": [],
 }
 PROPS["C05"] = {
-    "rules": [lambda F, R: r_txn.rule_T1(F, R, only=("commit_operations",)), r_taskdb.rule_L1, r_taskdb.rule_A1, r_storage.rule_D],
-    "explanation": "T1 on TaskDb::commit_operations (one transaction, commit last); L1 every operation logged in order unconditionally from the applied `operations`; D2-D4 for the SQLite side of `whole batch or none`: one real transaction, committed only by commit, and every proxied call (not only commit) returns the actor thread's reply, so a rejected write stops the batch; A1 also bounds how entries leave the write cache (one key at a time or a complete drain); A1 dispatch table of apply_operations (cache invalidation on create/delete, update through the cache, final flush).",
+    "rules": [lambda F, R: r_txn.rule_T1(F, R, only=("commit_operations",)), r_taskdb.rule_L1, r_taskdb.rule_A1, r_storage.rule_D, r_storage.rule_Q1],
+    "explanation": "Q1: on SQLite each StorageTxn call of the batch reaches the storage method of the same name with the same arguments (proxy and actor tables agree); T1 on TaskDb::commit_operations (one transaction, commit last); L1 every operation logged in order unconditionally from the applied `operations`; D2-D4 for the SQLite side of `whole batch or none`: one real transaction, committed only by commit, and every proxied call (not only commit) returns the actor thread's reply, so a rejected write stops the batch; A1 also bounds how entries leave the write cache (one key at a time or a complete drain); A1 dispatch table of apply_operations (cache invalidation on create/delete, update through the cache, final flush).",
     "not_decided": "equivalence of the write-cached batch application with one-at-a-time application for every batch; the replica invariant as a state predicate",
     "assumptions": [],
 }
